@@ -302,7 +302,7 @@ func (fr *Frame) applySpecClosure(spec *FuncSpec, key string, sig *types.Signatu
 		if label == "" {
 			label = fmt.Sprint(i)
 		}
-		if fr.trustsPre(key) {
+		if fr.trustsPre(key) || fr.trustsPreLabel(key, cl.Label) { // trustsPreLabel: `trustpre callee[label]` (ext_c07.go)
 			fc.assumes["precondition of "+key+" assumed at its call sites in "+funcKey(fr.fn)+" (trustpre): "+cl.Text] = true
 		} else {
 			fc.oblige(fr, "pre", key+":"+label, g, t, pos, cl.Text, fr.props())
